@@ -27,6 +27,13 @@ import (
 // whether it is malformed/truncated (client must return an error), well formed
 // (client must return the reported bound address) or undetermined.
 //
+// Part "segments" (deviation-bounded fault enumeration): the same conforming
+// server, but its byte stream reaches the client cut into segments — every
+// placement of 0, 1 or 2 cut positions over the whole server->client stream,
+// one segment per Read call — optionally closed early (truncation) or carrying
+// a failure reply code. How the bytes arrive must not change what the client
+// reports.
+//
 // No network, no goroutine on the server side, no time: the conn never blocks
 // (a read on an empty buffer is EOF).
 
@@ -38,6 +45,15 @@ type c54Conn struct {
 	rbuf   []byte
 	wrote  []byte
 	closed bool
+
+	// delivery schedule of the server->client stream (part "segments"); the
+	// zero values mean "everything available is returned by one Read, no close"
+	cuts      [2]int // absolute offsets in the server->client stream at which a Read stops (0 = unused)
+	limited   bool   // the server closes after sending limit bytes in total
+	limit     int
+	sent      []byte // what the server side put on the wire (after truncation)
+	delivered int    // how many of those the client has read
+	reads     int    // Read calls that returned data
 }
 
 type c54NetAddr string
@@ -57,8 +73,19 @@ func (c *c54Conn) Read(p []byte) (int, error) {
 	if len(c.rbuf) == 0 {
 		return 0, io.EOF
 	}
-	n := copy(p, c.rbuf)
+	n := len(p)
+	if n > len(c.rbuf) {
+		n = len(c.rbuf)
+	}
+	for _, cut := range c.cuts {
+		if cut > c.delivered && cut-c.delivered < n {
+			n = cut - c.delivered // a segment ends here: this Read returns no more
+		}
+	}
+	copy(p, c.rbuf[:n])
 	c.rbuf = c.rbuf[n:]
+	c.delivered += n
+	c.reads++
 	return n, nil
 }
 
@@ -70,7 +97,12 @@ func (c *c54Conn) Write(p []byte) (int, error) {
 	}
 	c.wrote = append(c.wrote, p...)
 	if c.srv != nil {
-		c.rbuf = append(c.rbuf, c.srv.feed(p)...)
+		out := c.srv.feed(p)
+		if c.limited && len(c.sent)+len(out) > c.limit {
+			out = out[:c.limit-len(c.sent)]
+		}
+		c.sent = append(c.sent, out...)
+		c.rbuf = append(c.rbuf, out...)
 	}
 	return len(p), nil
 }
@@ -126,6 +158,7 @@ func (b c54Bound) encode() []byte {
 type c54Server struct {
 	method byte // the method this server selects (must have been offered)
 	bound  c54Bound
+	rep    byte // reply code of the CONNECT reply (0 = succeeded)
 
 	stage     int // 0 greeting, 1 RFC 1929 sub-negotiation, 2 request, 3 request decoded
 	in        []byte
@@ -239,7 +272,9 @@ func (s *c54Server) feed(p []byte) (out []byte) {
 			s.reqAddr = append([]byte(nil), s.in[off:off+al]...)
 			s.reqPort = int(s.in[off+al])<<8 | int(s.in[off+al+1])
 			s.in = s.in[off+al+2:]
-			out = append(out, s.bound.encode()...)
+			rp := s.bound.encode()
+			rp[1] = s.rep
+			out = append(out, rp...)
 			s.stage = 3
 		default:
 			s.extra += len(s.in)
@@ -380,6 +415,23 @@ func c54Run(api int, auth *c54Auth, conn *c54Conn, address string) (bound net.Ad
 	return nil, rc, nil
 }
 
+// c54HostOK: the decoded CONNECT request names the requested host.
+func c54HostOK(dst c54Dest, srv *c54Server) bool {
+	hostOK := false
+	switch dst.kind {
+	case "ip4":
+		hostOK = srv.reqAtyp == 1 && bytes.Equal(srv.reqAddr, dst.ip)
+	case "ip6":
+		hostOK = srv.reqAtyp == 4 && bytes.Equal(srv.reqAddr, dst.ip)
+	case "ip4-mapped":
+		hostOK = (srv.reqAtyp == 4 && bytes.Equal(srv.reqAddr, dst.ip)) || (srv.reqAtyp == 1 && bytes.Equal(srv.reqAddr, dst.ip4))
+	}
+	if srv.reqAtyp == 3 && string(srv.reqAddr) == dst.host {
+		hostOK = true // the literal text sent as a domain name is the same destination
+	}
+	return hostOK
+}
+
 // c54BoundEqual compares the address the client reports with what the server sent.
 func c54BoundEqual(got net.Addr, want c54Bound) (bool, string) {
 	a, ok := got.(*socks.Addr)
@@ -434,19 +486,7 @@ func c54CheckRequest(w *vx.W, x c54ReqCase) {
 
 	// Whatever else happens: a decoded CONNECT request must name the requested destination.
 	if srv.stage == 3 {
-		hostOK := false
-		switch dst.kind {
-		case "ip4":
-			hostOK = srv.reqAtyp == 1 && bytes.Equal(srv.reqAddr, dst.ip)
-		case "ip6":
-			hostOK = srv.reqAtyp == 4 && bytes.Equal(srv.reqAddr, dst.ip)
-		case "ip4-mapped":
-			hostOK = (srv.reqAtyp == 4 && bytes.Equal(srv.reqAddr, dst.ip)) || (srv.reqAtyp == 1 && bytes.Equal(srv.reqAddr, dst.ip4))
-		}
-		if srv.reqAtyp == 3 && string(srv.reqAddr) == dst.host {
-			hostOK = true // the literal text sent as a domain name is the same destination
-		}
-		if !hostOK {
+		if !c54HostOK(dst, srv) {
 			w.Failf("C54/request/wrong-host:"+dst.label, "%v: the server decoded ATYP=%d DST.ADDR=%x (%q)", x, srv.reqAtyp, srv.reqAddr, srv.reqAddr)
 			return
 		}
@@ -651,14 +691,277 @@ func c54CheckReplies(w *vx.W, x c54ReplyCase) {
 	}
 }
 
+// ---------------------------------------------------------------- part "segments"
+//
+// Deviation-bounded fault enumeration over HOW the server's bytes arrive. The
+// default run is "every Read returns everything the server has sent"; a
+// deviation is one cut position in the server->client stream (method-selection
+// reply, RFC 1929 auth reply, CONNECT reply header, [FQDN length,] bound
+// address, port) at which a Read stops short. All placements of 0, 1 and 2 cuts
+// are run; the result must not depend on them.
+
+var c54SegDests = []int{0, 1, 2, 3, 14} // one per request ATYP + the shortest and longest name (the request buffer the client reuses for reading)
+
+var c54SegBounds = append(append([]c54Bound{}, c54Bounds...),
+	c54Bound{atyp: 3, addr: nil, port: 80, label: "fqdn-len0"},
+	c54Bound{atyp: 3, addr: []byte("x"), port: 0x0504, label: "fqdn-len1"},
+	c54Bound{atyp: 1, addr: []byte{5, 0, 0, 3}, port: 0x0104, label: "ip4-header-like"}, // address bytes that look like a reply header
+)
+
+type c54SegCase struct {
+	Dest   int `json:"dest"`   // index into c54Dests
+	Auth   int `json:"auth"`   // index into c54Auths (0 = none, 1 = "u"/"p")
+	Method int `json:"method"` // method the server selects
+	Bound  int `json:"bound"`  // index into c54SegBounds
+	API    int `json:"api"`
+	Rep    int `json:"reply_code"`       // 0 = succeeded
+	Trunc  int `json:"server_closes_at"` // -1: never; else the server closes after this many bytes of its stream
+	Cut1   int `json:"cut1"`             // offsets in the server->client stream where a segment ends (0 = unused)
+	Cut2   int `json:"cut2"`
+}
+
+func (x c54SegCase) streamLen() int {
+	n := 2 + len(c54SegBounds[x.Bound].encode())
+	if x.Method == 2 {
+		n += 2
+	}
+	return n
+}
+
+// region names the field of the server's stream a cut position falls into.
+func (x c54SegCase) region(cut int) string {
+	type fld struct {
+		name string
+		n    int
+	}
+	b := c54SegBounds[x.Bound]
+	fs := []fld{{"method-reply", 2}}
+	if x.Method == 2 {
+		fs = append(fs, fld{"auth-reply", 2})
+	}
+	fs = append(fs, fld{"reply-header", 4})
+	if b.atyp == 3 {
+		fs = append(fs, fld{"fqdn-length", 1})
+	}
+	fs = append(fs, fld{"bound-address", len(b.addr)}, fld{"port", 2})
+	off := 0
+	for _, f := range fs {
+		if f.n == 0 {
+			continue
+		}
+		if cut == off {
+			return "before-" + f.name
+		}
+		if cut < off+f.n {
+			return "inside-" + f.name
+		}
+		off += f.n
+	}
+	return "at-end"
+}
+
+func (x c54SegCase) ncuts() int {
+	n := 0
+	if x.Cut1 != 0 {
+		n++
+	}
+	if x.Cut2 != 0 {
+		n++
+	}
+	return n
+}
+
+func (x c54SegCase) cutClass() string {
+	switch {
+	case x.Cut1 == 0 && x.Cut2 == 0:
+		return "uncut"
+	case x.Cut2 == 0:
+		return "cut-" + x.region(x.Cut1)
+	case x.Cut1 == 0:
+		return "cut-" + x.region(x.Cut2)
+	}
+	return "cuts-" + x.region(x.Cut1) + "+" + x.region(x.Cut2)
+}
+
+func (x c54SegCase) String() string {
+	au := "no auth"
+	if c54Auths[x.Auth] != nil {
+		au = "user/pass offered"
+	}
+	h := c54Dests[x.Dest].host
+	if len(h) > 40 {
+		h = fmt.Sprintf("%s…(%d bytes)", h[:20], len(h))
+	}
+	tr := "never closes"
+	if x.Trunc >= 0 {
+		tr = fmt.Sprintf("closes after %d bytes", x.Trunc)
+	}
+	return fmt.Sprintf("%s to host %q port 80, %s, server selects method %d, replies code %d bound %s; its %d-byte stream arrives cut at offsets [%d %d] (%s), server %s",
+		c54APINames[x.API], h, au, x.Method, x.Rep, c54SegBounds[x.Bound].label, x.streamLen(), x.Cut1, x.Cut2, x.cutClass(), tr)
+}
+
+// c54SegEval runs one delivery schedule. kind == "" means the oracle holds;
+// outcome is the coarse class observed.
+func c54SegEval(x c54SegCase) (kind, what, outcome string, nontrivial bool) {
+	dst := c54Dests[x.Dest]
+	auth := c54Auths[x.Auth]
+	bnd := c54SegBounds[x.Bound]
+	srv := &c54Server{method: byte(x.Method), bound: bnd, rep: byte(x.Rep)}
+	conn := &c54Conn{srv: srv, cuts: [2]int{x.Cut1, x.Cut2}}
+	if x.Trunc >= 0 {
+		conn.limited, conn.limit = true, x.Trunc
+	}
+	bound, rc, err := c54Run(x.API, auth, conn, net.JoinHostPort(dst.host, "80"))
+
+	if srv.stage == 3 {
+		if !c54HostOK(dst, srv) || srv.reqPort != 80 {
+			return "wrong-request", fmt.Sprintf("%v: the server decoded ATYP=%d DST.ADDR=%x port %d", x, srv.reqAtyp, srv.reqAddr, srv.reqPort), "", false
+		}
+		if x.Method == 2 && (string(srv.user) != auth.user || string(srv.pass) != auth.pass) {
+			return "wrong-credentials", fmt.Sprintf("%v: the server decoded a different username/password", x), "", false
+		}
+	}
+	if srv.violation != "" {
+		return "malformed-request:" + srv.violation, fmt.Sprintf("%v: the client's bytes %x are not a valid RFC 1928/1929 message", x, conn.wrote), "", false
+	}
+	// what the server put on the wire decides, independently of how it was segmented
+	verdict, why, rb := c54RefReplies(auth != nil, conn.sent)
+	wantOK := x.Rep == 0 && (x.Trunc < 0 || x.Trunc >= x.streamLen())
+	if !wantOK {
+		if verdict != c54MustError {
+			panic(fmt.Sprintf("harness: reference reply decoder says %q for %v (sent %x)", why, x, conn.sent))
+		}
+		if err == nil {
+			return "bad-reply-accepted:" + why, fmt.Sprintf("%v: returned success (bound %v) although the server's replies are %s", x, bound, why), "", false
+		}
+		return "", "", "error:" + why, true
+	}
+	if err != nil {
+		return "well-formed-rejected", fmt.Sprintf("%v: error %v although every reply of the server (%x) is well formed, complete and reports success (server stage %d)", x, err, conn.sent, srv.stage), "", false
+	}
+	if srv.stage == 3 && (verdict != c54MustSucceed || rb.atyp != bnd.atyp || !bytes.Equal(rb.addr, bnd.addr) || rb.port != bnd.port) {
+		panic(fmt.Sprintf("harness: reference reply decoder says %q / a different bound address for %v (sent %x)", why, x, conn.sent))
+	}
+	if srv.stage != 3 || srv.extra != 0 || len(srv.in) != 0 {
+		return "request-stream", fmt.Sprintf("%v: success with server stage %d and %d stray request bytes", x, srv.stage, srv.extra+len(srv.in)), "", false
+	}
+	if conn.closed || rc != net.Conn(conn) {
+		return "not-the-open-transport-conn", fmt.Sprintf("%v: the returned connection is closed or does not wrap the connection to the proxy", x), "", false
+	}
+	if x.API != c54Dial {
+		if ok, desc := c54BoundEqual(bound, bnd); !ok {
+			return "wrong-address", fmt.Sprintf("%v: reported bound address %s, the server sent ATYP=%d %x port %d", x, desc, bnd.atyp, bnd.addr, bnd.port), "", false
+		}
+	}
+	if len(conn.rbuf) != 0 {
+		return "reply-bytes-left-unread", fmt.Sprintf("%v: success, but %d bytes of the server's reply (%x) are still unread and would be the first bytes of the tunnel", x, len(conn.rbuf), conn.rbuf), "", false
+	}
+	return "", "", fmt.Sprintf("ok cuts=%d", x.ncuts()), true
+}
+
+func c54CheckSegments(w *vx.W, x c54SegCase) {
+	kind, what, outcome, nontrivial := c54SegEval(x)
+	if kind == "" {
+		if nontrivial {
+			w.Nontrivial()
+		}
+		w.Outcome("segments:" + outcome)
+		return
+	}
+	// Name the smallest deviation that already fails (0 cuts, then each cut
+	// alone): one defect gives one signature however many cuts a case has.
+	min, minKind := x, kind
+	if x.ncuts() > 0 {
+		subs := []c54SegCase{x, x, x}
+		subs[0].Cut1, subs[0].Cut2 = 0, 0
+		subs[1].Cut2 = 0
+		subs[2].Cut1 = 0
+		for _, sub := range subs {
+			if sub.ncuts() >= x.ncuts() {
+				continue
+			}
+			if k, _, _, _ := c54SegEval(sub); k != "" {
+				min, minKind = sub, k
+				break
+			}
+		}
+	}
+	w.Failf("C54/segments/"+minKind+":"+min.cutClass(), "%s", what)
+}
+
+func c54GenSegments(c *vx.Ctx, yield func(c54SegCase) bool) {
+	const longStream = 64
+	maxCutsLong := vx.Pick(c, 1, 2)                       // streams longer than longStream bytes (255-byte bound name)
+	maxCutsTrunc := vx.Pick(c, 1, 2)                      // together with an early close
+	cutSets := func(x c54SegCase, hi, maxCuts int) bool { // every set of <= maxCuts cut offsets in 1..hi-1
+		if !yield(x) {
+			return false
+		}
+		if maxCuts >= 1 {
+			for a := 1; a < hi; a++ {
+				x.Cut1, x.Cut2 = a, 0
+				if !yield(x) {
+					return false
+				}
+			}
+		}
+		if maxCuts >= 2 {
+			for a := 1; a < hi; a++ {
+				for b := a + 1; b < hi; b++ {
+					x.Cut1, x.Cut2 = a, b
+					if !yield(x) {
+						return false
+					}
+				}
+			}
+		}
+		return true
+	}
+	for api := 0; api < c54NAPI; api++ {
+		for _, d := range c54SegDests {
+			for _, cfg := range [][2]int{{0, 0}, {1, 0}, {1, 2}} { // {auth index, selected method}
+				for b := range c54SegBounds {
+					x := c54SegCase{Dest: d, Auth: cfg[0], Method: cfg[1], Bound: b, API: api, Trunc: -1}
+					L := x.streamLen()
+					maxCuts := 2
+					if L > longStream {
+						maxCuts = maxCutsLong
+					}
+					// conforming success reply, then failure reply codes: segmentation only
+					for _, rep := range []int{0, 1, 8} {
+						x.Rep = rep
+						if !cutSets(x, L, maxCuts) {
+							return
+						}
+					}
+					// success reply cut short by a close after t bytes, segmented before that
+					x.Rep = 0
+					mt := maxCutsTrunc
+					if L > longStream {
+						mt = maxCutsLong - 1
+					}
+					for t := 0; t < L; t++ {
+						x.Trunc = t
+						if !cutSets(x, t, mt) {
+							return
+						}
+					}
+				}
+			}
+		}
+	}
+}
+
 func TestVerif_C54(t *testing.T) {
 	vx.Run(t, "C54", func(c *vx.Ctx) {
 		c.Rule("request: every destination host of {IPv4 0.0.0.0 1.2.3.4 255.255.255.255; IPv6 :: ::1 2001:db8::1 (short and long spelling) ::ffff:1.2.3.4; names of length 1,2,11,254,255,256,300,511 incl. bytes >= 0x80} x port {80,1,255,256,65535,0,65536,-1,65616} x auth {none, user/pass of lengths 1/1, bytes>=0x80, 255/255, 256/1, 1/256} x method the server selects {0, 2 when offered} x bound address in the reply {IPv4, IPv4 zero, IPv6, FQDN 11/255 bytes/high bytes} x API {SOCKS5.DialContext with Background and derived ctx, SOCKS5.Dial, socks.Dialer.DialWithConn, plain forward dialer}; the client talks to an in-memory conn whose far end is a strict RFC 1928/1929 server decoder. non-trivial = a CONNECT request was decoded and compared, or an unencodable destination was refused. " +
 			"replies: the server side is a fixed byte string: every truncation and every single-byte mutation to {0x00,0xff,+1} of every well-formed transcript (method 0 / method 2 + auth ok; bound IPv4, IPv6, FQDN of 0/1/11/255 bytes), reply codes 0..9 and 0xff, plus EVERY byte string of length <= 5 (thorough 6) over {00 01 02 03 04 05 ff} and every [05 00]+string of length <= 6 (thorough 8) over {00 01 03 04 05 ff}; a reference reply decoder classifies each as malformed/truncated (client must return an error), well formed (client must return exactly the reported bound address) or undetermined")
+		c.Rule("segments (deviation-bounded fault enumeration over how the server's bytes ARRIVE): default run = every Read returns all the conforming server has sent; deviation = one cut offset in the server->client byte stream (method-selection reply, RFC 1929 auth reply, CONNECT reply header, FQDN length, bound address, port) at which a Read stops, i.e. the conn returns exactly one segment per Read. EVERY placement of 0, 1 and 2 cuts over the whole stream (streams > 64 bytes, i.e. the 255-byte bound name: 0 and 1 cut in quick, 2 in thorough) x destination {1.2.3.4, ::1, names of 1/11/255 bytes} x {no auth, user/pass offered with server method 0 or 2} x bound address {IPv4 x3 incl. header-like bytes, IPv6, FQDN of 0/1/3/11/255 bytes} x the 5 APIs x reply code {0, 1, 8}; plus the success stream closed by the server after every t < length bytes with every <= 1 cut before t (thorough 2; streams > 64 bytes: 0, thorough 1). oracle: complete success stream -> no error, exactly the reported bound address, the open transport conn, no reply byte left unread; failure code or early close -> error; the request decoded by the server is the requested one in every case. A failing case is attributed to the smallest failing subset of its cuts (signature = field the cut falls in). non-trivial = the result was compared after the server decoded the CONNECT request, or a required error was returned")
 		c.Assume("port 0: RFC 1928 can encode it; the client may refuse it (accepted) but if it sends a request it must carry port 0")
 		c.Assume("::ffff:1.2.3.4 may be sent as ATYP IPv4 1.2.3.4 or as the 16-byte IPv6 address; an IP literal sent as ATYP DOMAINNAME with the identical text is accepted as the same destination")
 		c.Assume("a server selecting a method the client did not offer is classified 'undetermined' (only absence of panics/hangs is checked); empty user names/passwords, IPv6 zone identifiers, empty host names and non-numeric ports are not enumerated")
 		c.Assume("the in-memory conn never blocks: reading past the scripted bytes is EOF; deadlines are no-ops; no wall-clock time is involved")
+		c.Assume("segments: at most 2 cuts per run (3 or more, e.g. byte-by-byte delivery, are not enumerated); the client's own writes are never split (Write accepts everything); the server sends no tunnel payload behind its reply, so over-reading past the reply is not observable; port 80 only")
 
 		// ---- part request
 		vx.Enumerate(c, "request", vx.Opts{}, func(yield func(c54ReqCase) bool) {
@@ -778,5 +1081,12 @@ func TestVerif_C54(t *testing.T) {
 				}
 			}
 		}, c54CheckReplies)
+
+		// ---- part segments
+		c.Note("segments.max_cuts", 2)
+		c.Note("segments.max_cuts_streams_over_64_bytes", vx.Pick(c, 1, 2))
+		c.Note("segments.max_cuts_with_early_close", vx.Pick(c, 1, 2))
+		c.Note("segments.max_cuts_with_early_close_streams_over_64_bytes", vx.Pick(c, 0, 1))
+		vx.Enumerate(c, "segments", vx.Opts{}, func(yield func(c54SegCase) bool) { c54GenSegments(c, yield) }, c54CheckSegments)
 	})
 }
